@@ -370,7 +370,15 @@ def mutator(draw):
         )
     )
     if k == "transform":
-        return ["transform", draw(gm.matrix(classes=MATRIX_CLASSES, tscale=draw(st.sampled_from([0.0, 1.0, 10.0]))))]
+        m = draw(gm.matrix(classes=MATRIX_CLASSES, tscale=draw(st.sampled_from([0.0, 1.0, 10.0]))))
+        # keep the overall scale moderate: face normals of triangles below trimesh's absolute degenerate-area threshold
+        # are zero by documentation, which is a question of scale (C04 / C15) and not of history
+        M = np.array(m["M"], dtype=np.float64)
+        sc = abs(np.linalg.det(M[:3, :3])) ** (1.0 / 3.0)
+        if sc < 0.05 or sc > 50:
+            M[:3, :3] /= sc
+            m["M"] = M.tolist()
+        return ["transform", m]
     if k == "scale":
         if draw(st.booleans()):
             return ["scale", draw(st.sampled_from([0.5, 2.0, 3.0, -1.0, -2.0, 10.0]))]
